@@ -15,25 +15,36 @@ fn toks(t: &impl ToTokens) -> String {
 pub fn path(p: &syn::Path) -> Value {
     let n = p.segments.len();
     let mut segs = vec![];
-    let mut args = vec![];
+    let mut segargs: Vec<Vec<Value>> = vec![];
+    let mut inner = false;
     for (i, s) in p.segments.iter().enumerate() {
         segs.push(json!(s.ident.to_string()));
+        let mut here = vec![];
         match &s.arguments {
             syn::PathArguments::None => {}
-            syn::PathArguments::AngleBracketed(a) if i + 1 == n => {
+            syn::PathArguments::AngleBracketed(a) => {
                 for g in &a.args {
                     match g {
-                        syn::GenericArgument::Type(t) => args.push(ty(t)),
+                        syn::GenericArgument::Type(t) => here.push(ty(t)),
                         _ => return json!({"k":"other","text": toks(p)}),
                     }
                 }
                 if a.args.is_empty() {
                     return json!({"k":"other","text": toks(p)});
                 }
+                if i + 1 != n {
+                    inner = true;
+                }
             }
             _ => return json!({"k":"other","text": toks(p)}),
         }
+        segargs.push(here);
     }
+    if inner {
+        // generic arguments on a segment that is not the last one, e.g. `::ext::Generic<A, B>::Output`
+        return json!({"k":"qpath","lead": p.leading_colon.is_some(), "segs": segs, "segargs": segargs});
+    }
+    let args = segargs.pop().unwrap_or_default();
     json!({"k":"path","lead": p.leading_colon.is_some(), "segs": segs, "args": args})
 }
 
